@@ -1022,6 +1022,28 @@ def _ident_root(i):
                 undecided.add("LIN:%s:INV" % f.name)
     if nb:
         agg["LIN:%s:INV" % f.name] = [inv_ok, FRef(f), f.line, inv_det, True]
+    # EXTLONG: an identifier in which the function installed a fresh block (its _base points to an allocation made here)
+    # reads as long content (_len > _max) at return; with _len <= _max every reader takes the inline bytes and nobody frees the block
+    ext_ok, ext_det, ne = True, "", 0
+    for st, v in outs:
+        for p in f.params:
+            pv = st.env.get(("v", fr.id, p["id"]))
+            if not (isinstance(pv, ObjPtr) and an.objrec.get((pv.obj, pv.prefix)) in IDENT_RECORDS):
+                continue
+            b = st.env.get(("f", pv.obj, pv.prefix + "_base"))
+            ln = st.env.get(("f", pv.obj, pv.prefix + "_len"))
+            mx = st.env.get(("f", pv.obj, pv.prefix + "_max"))
+            if isinstance(b, Ptr) and b.region is not None and b.region.kind == "alloc" and isinstance(ln, Lin) and isinstance(mx, Lin):
+                ne += 1
+                if not st.entails(ln - mx - Lin.const(1)):
+                    if st.joined:
+                        undecided.add("LIN:%s:EXTLONG" % f.name)
+                    elif ext_ok:
+                        ext_ok = False
+                        ext_det = "%s: a block allocated here is installed as _base while _len (%r) is not shown to exceed _max (%r): readers take the inline bytes and the block is never freed; path %s" % (
+                            p["n"], ln, mx, " / ".join(st.trail[-8:]))
+    if ne:
+        agg["LIN:%s:EXTLONG" % f.name] = [ext_ok, FRef(f), f.line, ext_det, True]
     return {"agg": agg, "undecided": undecided, "stats": stats, "assumed": an.assumed, "cut": None}
 
 
